@@ -364,7 +364,7 @@ func TestC10_Enum(t *testing.T) {
 	}
 	maxK := 5
 	if stats.Tier() == "thorough" {
-		maxK = 7
+		maxK = 8
 	}
 	shard, shards := stats.Shard()
 	idx := 0
@@ -423,7 +423,7 @@ func TestC10_Enum(t *testing.T) {
 
 func TestC10_Random(t *testing.T) {
 	rec := stats.New(t, "C10", rule)
-	rp.Check(t, 40000, 1500000, func(rt *rapid.T) {
+	rp.Check(t, 40000, 12000000, func(rt *rapid.T) {
 		k := rapid.IntRange(0, 12).Draw(rt, "k")
 		st := make([]byte, k)
 		for i := range st {
